@@ -109,6 +109,8 @@ def type_params(ty):
 def turbofish_params(callee):
     """`Option::<InputValue>::unwrap` -> ['InputValue'] (first turbofish group)."""
     i = callee.find("::<")
+    while i >= 0 and callee.startswith("::<impl ", i):
+        i = callee.find("::<", i + 3)
     if i < 0:
         return []
     j = mirparse.scan_balanced(callee, i + 3, ">")
